@@ -57,7 +57,7 @@ void hb_forget( const void* addr ) noexcept;    // payload storage recycled
 
 // ---- primitives used by cds_verif::mutex / condition_variable / thread ----
 namespace detail {
-    struct mutex_state { int owner = -1; int depth = 0; unsigned waiters = 0; };
+    struct mutex_state { int owner = 0; int depth = 0; unsigned waiters = 0; };   // owner: participant id + 1, 0 = free (all-zero = unlocked)
     void mutex_lock( mutex_state& m, bool recursive ) noexcept;
     bool mutex_try_lock( mutex_state& m, bool recursive ) noexcept;
     void mutex_unlock( mutex_state& m ) noexcept;
